@@ -5,6 +5,7 @@ package fees
 
 import (
 	"encoding/binary"
+	"math/bits"
 	"sync"
 
 	"github.com/ava-labs/avalanchego/utils/math"
@@ -224,9 +225,7 @@ func computeNextPriceWindow(
 	if total > target {
 		// If the parent block used more units than its target, the baseFee should increase.
 		delta := total - target
-		x := previousPrice * delta
-		y := x / target
-		baseDelta := y / changeDenom
+		baseDelta := mulDivDiv(previousPrice, delta, target, changeDenom)
 		if baseDelta < 1 {
 			baseDelta = 1
 		}
@@ -239,9 +238,7 @@ func computeNextPriceWindow(
 	} else if total < target {
 		// Otherwise if the parent block used less units than its target, the baseFee should decrease.
 		delta := target - total
-		x := previousPrice * delta
-		y := x / target
-		baseDelta := y / changeDenom
+		baseDelta := mulDivDiv(previousPrice, delta, target, changeDenom)
 		if baseDelta < 1 {
 			baseDelta = 1
 		}
@@ -252,7 +249,11 @@ func computeNextPriceWindow(
 		// that has elapsed between the parent and this block.
 		if since > window.WindowSize {
 			// Note: roll/rollupWindow must be greater than 1 since we've checked that roll > rollupWindow
-			baseDelta *= since / window.WindowSize
+			scaled, over := math.Mul(baseDelta, since/window.WindowSize)
+			if over != nil {
+				scaled = consts.MaxUint64
+			}
+			baseDelta = scaled
 		}
 		n, under := math.Sub(nextPrice, baseDelta)
 		if under != nil {
@@ -265,6 +266,23 @@ func computeNextPriceWindow(
 		nextPrice = minPrice
 	}
 	return nextPrice, newRollupWindow
+}
+
+// mulDivDiv returns (a*b/c)/d, with both divisions rounding down, computed
+// exactly with a 128-bit intermediate product and saturating at the maximum
+// uint64.
+func mulDivDiv(a, b, c, d uint64) uint64 {
+	hi, lo := bits.Mul64(a, b)
+	// (qhi:qlo) = (hi:lo) / c
+	qhi, rem := bits.Div64(0, hi, c)
+	qlo, _ := bits.Div64(rem, lo, c)
+	// (qhi:qlo) / d
+	rhi, rem := bits.Div64(0, qhi, d)
+	if rhi != 0 {
+		return consts.MaxUint64
+	}
+	rlo, _ := bits.Div64(rem, qlo, d)
+	return rlo
 }
 
 type Rules interface {
